@@ -18,6 +18,9 @@ def run(tier):
         fams.append(("shape", p, root, None))
     for p, root in gen_calls.gen_nested(rng, 1500 if thorough else 300):
         fams.append(("nested", p, root, None))
+    import gen_shapes
+    for p, root in gen_shapes.tabcons_cases(rng, 1500 if thorough else 300):
+        fams.append(("tabcons", p, root, None))
     for i in range(600 if thorough else 150):
         p, root, src = gen_core.gen_program(vlib.seed() * 1000000 + 500000 + i, feats={"func", "varargs", "table", "closure"}, err_rate=0.05)
         fams.append(("randcall", p, root, src))
